@@ -35,7 +35,7 @@ Reset(e) ==
   /\ val' = v0 /\ old' = v0 /\ ser' = v0
   /\ ph' = [a \in Arch |-> "idle"] /\ want' = [a \in Arch |-> NoReq]
   /\ nops' = [a \in Arch |-> 0] /\ nsec' = [a \in Arch |-> 0] /\ nw' = [a \in Arch |-> 0]
-  /\ log' = [a \in Arch |-> <<>>] /\ bad' = FALSE
+  /\ log' = [a \in Arch |-> <<>>] /\ bad' = FALSE /\ wq' = <<>>
 
 CellsOfLock(m) == {c \in Cells : lk[c] = m}
 
